@@ -80,13 +80,97 @@ pub fn show_trace(toks: &[String]) -> String {
 pub enum ReplyTok {
     Ok(Option<Message<'static>>),
     Bus,
+    /// the bus takes more than a second before it answers (a slow line, a paced transport, a busy sign)
+    Slow(Box<ReplyTok>),
+    /// the bus unwinds (panics) instead of returning
+    Panic,
+    /// the bus answers with the very message it was sent (a half-duplex line looping the transmitter back)
+    Echo,
 }
 
 pub fn parse_reply(s: &str) -> Option<ReplyTok> {
+    if let Some(rest) = s.strip_prefix('~') {
+        return Some(ReplyTok::Slow(Box::new(parse_reply(rest)?)));
+    }
     match s {
         "none" => Some(ReplyTok::Ok(None)),
         "bus" => Some(ReplyTok::Bus),
+        "panic" => Some(ReplyTok::Panic),
+        "echo" => Some(ReplyTok::Echo),
         _ => Some(ReplyTok::Ok(Some(parse_msg(s)?))),
+    }
+}
+
+/// Compile-time probe: `Some(wire encoding of a frame carrying Data::from(&[0u8; N]))` if that conversion exists in
+/// the library as built, `None` if it does not (an inherent associated function, applicable only when the bound
+/// holds, shadows the blanket trait's fallback).
+pub struct DataFromProbe<const N: usize>;
+pub trait NoDataFrom<const N: usize> {
+    fn wire(_a: &'static [u8; N]) -> Option<Vec<u8>> {
+        None
+    }
+}
+impl<const N: usize> NoDataFrom<N> for DataFromProbe<N> {}
+impl<const N: usize> DataFromProbe<N>
+where
+    Data<'static>: From<&'static [u8; N]>,
+{
+    pub fn wire(a: &'static [u8; N]) -> Option<Vec<u8>> {
+        let d: Data<'static> = Data::from(a);
+        Some(Frame::new(Address(1), MsgType(0), d).to_bytes())
+    }
+}
+macro_rules! probe_data_from {
+    ($n:literal) => {{
+        static A: [u8; $n] = [0u8; $n];
+        #[allow(unused_imports)]
+        use crate::implside::NoDataFrom;
+        <crate::implside::DataFromProbe<$n>>::wire(&A)
+    }};
+}
+
+/// Compile-time probes for mutable access into a validated data block (none exists on the pinned tree): if the
+/// library as built lets a caller reach the backing storage of a `Data`, the probe uses it to grow a 255-byte block
+/// by one byte and returns the result; otherwise `None` (a generic inherent function, applicable only when its
+/// bound holds, shadows the blanket trait's fallback).
+pub struct GrowProbe<T>(std::marker::PhantomData<T>);
+pub trait NoGrow<T> {
+    fn via_deref_cow(_d: T) -> Option<T> {
+        None
+    }
+    fn via_deref_vec(_d: T) -> Option<T> {
+        None
+    }
+    fn via_as_mut_vec(_d: T) -> Option<T> {
+        None
+    }
+    fn via_extend(_d: T) -> Option<T> {
+        None
+    }
+}
+impl<T> NoGrow<T> for GrowProbe<T> {}
+impl<T: std::ops::DerefMut<Target = std::borrow::Cow<'static, [u8]>>> GrowProbe<T> {
+    pub fn via_deref_cow(mut d: T) -> Option<T> {
+        d.to_mut().push(0);
+        Some(d)
+    }
+}
+impl<T: std::ops::DerefMut<Target = Vec<u8>>> GrowProbe<T> {
+    pub fn via_deref_vec(mut d: T) -> Option<T> {
+        d.push(0);
+        Some(d)
+    }
+}
+impl<T: AsMut<Vec<u8>>> GrowProbe<T> {
+    pub fn via_as_mut_vec(mut d: T) -> Option<T> {
+        d.as_mut().push(0);
+        Some(d)
+    }
+}
+impl<T: Extend<u8>> GrowProbe<T> {
+    pub fn via_extend(mut d: T) -> Option<T> {
+        d.extend(std::iter::once(0u8));
+        Some(d)
     }
 }
 
@@ -94,7 +178,7 @@ thread_local! {
     /// Which concrete error type the scripted bus fails with (0 = a plain string error).
     pub static BUS_ERR_KIND: std::cell::Cell<u8> = std::cell::Cell::new(0);
 }
-pub const BUS_ERR_KINDS: u8 = 6;
+pub const BUS_ERR_KINDS: u8 = 8;
 
 /// The scripted bus error in one of several concrete types: what a failing transport can really hand back
 /// (a boxed string, I/O errors of several kinds, the frame codec's own errors).  A controller must treat them
@@ -106,6 +190,14 @@ pub fn scripted_bus_error() -> Box<dyn Error + Send + Sync> {
         3 => Box::new(Frame::from_bytes(b":01007F02FF00").unwrap_err()), // BadChecksum
         4 => Box::new(Frame::from_bytes(b"noise").unwrap_err()),         // InvalidFrame
         5 => Box::new(Frame::from_bytes(b":02007F02FF7E").unwrap_err()), // FrameDataMismatch
+        // the controller's own error type coming back from a bus (a bus layered on another controller)
+        6 => Box::new(SignError::UnexpectedResponse {
+            expected: "scripted".into(),
+            actual: "scripted".into(),
+        }),
+        7 => Box::new(SignError::Bus {
+            source: "scripted inner bus error".into(),
+        }),
         _ => "scripted bus error".into(),
     }
 }
@@ -128,14 +220,22 @@ impl SignBus for ScriptBus {
     fn process_message<'a>(&mut self, message: Message<'_>) -> Result<Option<Message<'a>>, Box<dyn Error + Send + Sync>> {
         self.trace.push(show_msg(&message));
         self.msgs.push(to_static(&message));
-        match self.script.pop_front() {
+        let mut tok = self.script.pop_front();
+        while let Some(ReplyTok::Slow(inner)) = tok {
+            std::thread::sleep(std::time::Duration::from_millis(1050));
+            tok = Some(*inner);
+        }
+        match tok {
             None => {
                 self.starved = true;
                 Err("script exhausted".into())
             }
             Some(ReplyTok::Bus) => Err(scripted_bus_error()),
+            Some(ReplyTok::Panic) => panic!("scripted bus panic"),
+            Some(ReplyTok::Echo) => Ok(Some(to_static(&message))),
             Some(ReplyTok::Ok(None)) => Ok(None),
             Some(ReplyTok::Ok(Some(m))) => Ok(Some(m)),
+            Some(ReplyTok::Slow(_)) => unreachable!(),
         }
     }
 }
@@ -273,16 +373,36 @@ fn page_ops(mut p: Page<'static>, ops: &[&str]) -> String {
     out.join(" ")
 }
 
-fn vbus_walk(signs: &[(PageFlipStyle, u16)], msgs: &[Message<'static>]) -> String {
-    let mut bus = VirtualSignBus::new(signs.iter().map(|(st, a)| VirtualSign::new(Address(*a), *st)));
+fn vbus_walk(signs: &[(PageFlipStyle, u16)], pre: &[(usize, Message<'static>)], msgs: &[Option<Message<'static>>]) -> String {
+    let mut fresh: Vec<VirtualSign<'static>> = signs.iter().map(|(st, a)| VirtualSign::new(Address(*a), *st)).collect();
     // With exactly one sign, a stand-alone VirtualSign is driven in lock step and must agree.
     let mut solo = if signs.len() == 1 {
         Some(VirtualSign::new(Address(signs[0].1), signs[0].0))
     } else {
         None
     };
+    for (i, m) in pre {
+        if *i >= fresh.len() {
+            return "bad-op".into();
+        }
+        if guarded(|| fresh[*i].process_message(m)).is_none() {
+            return "PANIC".into();
+        }
+        if let Some(s) = solo.as_mut() {
+            let _ = guarded(|| s.process_message(m));
+        }
+    }
+    let mut bus = VirtualSignBus::new(fresh);
     let mut out: Vec<String> = vec![];
     for m in msgs {
+        let m = match m {
+            Some(m) => m,
+            None => {
+                let clones: Vec<VirtualSign<'static>> = (0..signs.len()).map(|i| bus.sign(i).clone()).collect();
+                bus = VirtualSignBus::new(clones);
+                continue;
+            }
+        };
         let r = guarded(|| bus.process_message(m.clone()));
         let r = match r {
             None => {
@@ -411,6 +531,130 @@ fn run_case_inner(line: &str) -> Option<String> {
             show_msg(&Message::from(f))
         }
         ["m2f", m] => show_frame(&Frame::from(parse_msg(m)?)),
+        ["pagefromlen", w, h, n] => {
+            // Page::from_bytes over an owned zeroed buffer of n bytes (never touched)
+            let (w, h, n): (u32, u32, usize) = (w.parse().ok()?, h.parse().ok()?, n.parse().ok()?);
+            match Page::from_bytes(w, h, vec![0u8; n]) {
+                Ok(_) => "ok".to_string(),
+                Err(flipdot_core::PageError::WrongPageLength { width, height, expected, actual }) => format!("err wronglen {} {} {} {}", width, height, expected, actual),
+                #[allow(unreachable_patterns)]
+                Err(_) => "err other".to_string(),
+            }
+        }
+        ["typefromlen", n, known] => {
+            // SignType::from_bytes on n zero bytes that start with a supported (known = 1) or unsupported header
+            let n: usize = n.parse().ok()?;
+            let mut v = vec![0u8; n];
+            if *known == "1" && n >= 2 {
+                let t = TYPES[n % TYPES.len()].to_bytes();
+                v[0] = t[0];
+                v[1] = t[1];
+            } else if n >= 2 {
+                v[0] = 0x33;
+                v[1] = 0x44;
+            }
+            match SignType::from_bytes(&v) {
+                Ok(t) => format!("ok {}", type_idx(t)),
+                Err(SignTypeError::WrongConfigLength { expected, actual }) => format!("err wronglen {} {}", expected, actual),
+                Err(SignTypeError::UnknownConfig { .. }) => "err unknown".to_string(),
+                #[allow(unreachable_patterns)]
+                Err(_) => "err other".to_string(),
+            }
+        }
+        ["soak", "enc", count] => {
+            // encode a maximum-size frame `count` times on this thread (nothing is kept), then round-trip once more:
+            // tallies kept per thread or per process by the codec must not give out after gigabytes of traffic
+            let count: u64 = count.parse().ok()?;
+            let f = Frame::new(Address(0x0102), MsgType(0), Data::try_new((0..255u32).map(|i| i as u8).collect::<Vec<u8>>()).ok()?);
+            let r = guarded(|| {
+                let mut total = 0u64;
+                for _ in 0..count {
+                    total += f.to_bytes().len() as u64;
+                }
+                let back = Frame::from_bytes(&f.to_bytes_with_newline());
+                (total, back.map(|b| b == f).unwrap_or(false))
+            });
+            match r {
+                None => "PANIC".to_string(),
+                Some((total, true)) => format!("ok {}", total),
+                Some((total, false)) => format!("BROKEN after {} bytes", total),
+            }
+        }
+        ["datagrow", way] => {
+            // can a validated 255-byte block be grown afterwards through some mutable access the library offers?
+            let d: Data<'static> = Data::try_new(vec![0u8; 255]).ok()?;
+            #[allow(unused_imports)]
+            use crate::implside::NoGrow;
+            let r = guarded(|| match *way {
+                "deref-cow" => <GrowProbe<Data<'static>>>::via_deref_cow(d),
+                "deref-vec" => <GrowProbe<Data<'static>>>::via_deref_vec(d),
+                "as-mut-vec" => <GrowProbe<Data<'static>>>::via_as_mut_vec(d),
+                "extend" => <GrowProbe<Data<'static>>>::via_extend(d),
+                _ => None,
+            });
+            match r {
+                None | Some(None) => "fits".to_string(),
+                Some(Some(d2)) => {
+                    let wire = Frame::new(Address(1), MsgType(0), d2).to_bytes();
+                    // 255 data bytes encode to 1 + 2 * (255 + 5) characters; anything longer carries more
+                    if wire.len() <= 1 + 2 * (255 + 5) {
+                        "fits".to_string()
+                    } else {
+                        format!("VIOLATES {} wire characters, length field {}", wire.len(), String::from_utf8_lossy(&wire[1..3]))
+                    }
+                }
+            }
+        }
+        ["datafrom", n] => {
+            // does a conversion `Data::from(&'static [u8; N])` exist for this N, and if so is what it builds a legal
+            // data block (at most 255 bytes, encoded with the right length)?  Sizes 0..=4 exist on the pinned tree.
+            let n: usize = n.parse().ok()?;
+            let r = guarded(|| match n {
+                0 => probe_data_from!(0),
+                1 => probe_data_from!(1),
+                4 => probe_data_from!(4),
+                5 => probe_data_from!(5),
+                16 => probe_data_from!(16),
+                255 => probe_data_from!(255),
+                256 => probe_data_from!(256),
+                _ => None,
+            });
+            match r {
+                // a conversion that refuses (panics) builds no block at all
+                None => "fits".to_string(),
+                Some(None) => "fits".to_string(),
+                Some(Some(wire)) => {
+                    let ok = n <= 255 && wire == crate::gens::indep_enc(1, 0, &vec![0u8; n]);
+                    if ok {
+                        "fits".to_string()
+                    } else {
+                        format!("VIOLATES {} {}", n, String::from_utf8_lossy(&wire[..wire.len().min(12)]))
+                    }
+                }
+            }
+        }
+        ["bigpage", w, h, x, y] => {
+            // a page too large to print (or to hold in the model as a list): set one pixel and report where the
+            // page changed among the true position and its likely aliases (positions reduced modulo 2^32 / 2^16,
+            // neighbours), plus what get_pixel says afterwards.  The zeroed allocation is never touched elsewhere.
+            let (w, h, x, y): (u32, u32, u32, u32) = (w.parse().ok()?, h.parse().ok()?, x.parse().ok()?, y.parse().ok()?);
+            let r = guarded(|| {
+                // from_bytes over an owned zeroed vector: no copy, no fill — only the pages actually written are touched
+                let bpc = (h as u128 + 7) / 8;
+                let total = ((4 + w as u128 * bpc + 15) / 16 * 16) as usize;
+                let mut p = Page::from_bytes(w, h, vec![0u8; total]).expect("exact length");
+                p.set_pixel(x, y, true);
+                let rel = x as u128 * bpc + (y / 8) as u128;
+                let len = p.as_bytes().len() as u128;
+                let mut cands: Vec<u128> = vec![4 + rel, 4 + rel % (1 << 32), (4 + rel) % (1 << 32), 4 + rel % (1 << 16), 4 + (x as u128 * (bpc % (1 << 16)) + (y / 8) as u128), 4 + (x as u128 * (bpc % (1 << 32)) + (y / 8) as u128) % (1 << 32), 4 + (y / 8) as u128, 4 + rel + 1, 4 + rel - rel.min(1)];
+                cands.retain(|c| *c >= 4 && *c < len);
+                cands.sort();
+                cands.dedup();
+                let hits: Vec<String> = cands.iter().filter(|c| p.as_bytes()[**c as usize] != 0).map(|c| format!("{}:{:02X}", c, p.as_bytes()[*c as usize])).collect();
+                format!("{} g={}", hits.join(","), p.get_pixel(x, y) as u8)
+            });
+            r.unwrap_or_else(|| "PANIC".into())
+        }
         ["page", "new", id, w, h, ops @ ..] => {
             let p = Page::new(PageId(parse_u8(id)?), w.parse().ok()?, h.parse().ok()?);
             page_ops(p, ops)
@@ -463,14 +707,58 @@ fn run_case_inner(line: &str) -> Option<String> {
         }
         ["vbus", signs, msgs @ ..] => {
             let signs = parse_signs(signs)?;
-            let msgs: Vec<Message<'static>> = msgs.iter().map(|t| parse_msg(t)).collect::<Option<_>>()?;
-            vbus_walk(&signs, &msgs)
+            // `@i:MSG` tokens (first): sign i is driven directly with MSG before the bus is built from the signs;
+            // `#rebuild` anywhere: a new bus is built from clones of the current signs (bus-level state is lost)
+            let npre = msgs.iter().take_while(|t| t.starts_with('@')).count();
+            let mut pre: Vec<(usize, Message<'static>)> = vec![];
+            for t in &msgs[..npre] {
+                let (i, m) = t[1..].split_once(':')?;
+                pre.push((i.parse().ok()?, parse_msg(m)?));
+            }
+            let steps: Vec<Option<Message<'static>>> = msgs[npre..].iter().map(|t| if *t == "#rebuild" { Some(None) } else { parse_msg(t).map(Some) }).collect::<Option<_>>()?;
+            vbus_walk(&signs, &pre, &steps)
         }
         ["ctrl", op, t, a, items, "|", replies @ ..] => {
             let script: Vec<ReplyTok> = replies.iter().map(|t| parse_reply(t)).collect::<Option<_>>()?;
             let t = *TYPES.get(t.parse::<usize>().ok()?)?;
             let r = ctrl_run(op, t, parse_u16(a)?, &parse_items(items)?, &script)?;
             format!("{} => {}", show_trace(&r.trace), r.outcome)
+        }
+        ["ctrl2", op1, op2, t, a, items, "|", replies @ ..] => {
+            // two operations on ONE controller object over one scripted bus
+            let script: Vec<ReplyTok> = replies.iter().map(|t| parse_reply(t)).collect::<Option<_>>()?;
+            let t = *TYPES.get(t.parse::<usize>().ok()?)?;
+            let items = parse_items(items)?;
+            let bus = Rc::new(RefCell::new(ScriptBus {
+                script: script.iter().cloned().collect(),
+                trace: vec![],
+                msgs: vec![],
+                starved: false,
+            }));
+            let sign = Sign::new(bus.clone(), Address(parse_u16(a)?), t);
+            let mut parts: Vec<String> = vec![];
+            for op in [op1, op2] {
+                let before = bus.try_borrow().ok()?.trace.len();
+                bus.try_borrow_mut().ok()?.starved = false;
+                let r = guarded(|| run_op(&sign, op, t, &items));
+                let outcome = match r {
+                    None => "PANIC".to_string(),
+                    Some(None) => return None,
+                    Some(Some(Ok(s))) => s,
+                    Some(Some(Err(SignError::Bus { .. }))) => {
+                        if bus.try_borrow().ok()?.starved {
+                            "starved".to_string()
+                        } else {
+                            "bus".to_string()
+                        }
+                    }
+                    Some(Some(Err(SignError::UnexpectedResponse { .. }))) => "proto".to_string(),
+                    Some(Some(Err(_))) => "err-other".to_string(),
+                };
+                let tr: Vec<String> = bus.try_borrow().ok()?.trace[before..].to_vec();
+                parts.push(format!("{} => {}", show_trace(&tr), outcome));
+            }
+            parts.join(" ;; ")
         }
         ["e2e", "direct", signs, rest @ ..] => e2e_direct(signs, rest)?,
         ["e2e", "serial", signs, rest @ ..] => crate::iomock::e2e_serial(signs, rest)?,
@@ -498,7 +786,14 @@ fn run_case_inner(line: &str) -> Option<String> {
                 return None;
             }
             let msgs: Vec<Message<'static>> = g[0].iter().map(|t| parse_msg(t)).collect::<Option<_>>()?;
-            crate::iomock::serial_multi_case(*verb == "serialmt", &msgs, crate::iomock::parse_revs(g[1])?, crate::iomock::parse_wevs(g[2])?)?
+            let r = crate::iomock::serial_multi_case(*verb == "serialmt", &msgs, crate::iomock::parse_revs(g[1])?, crate::iomock::parse_wevs(g[2])?)?;
+            // with a failing flush() what an exchange returns is the implementation's choice (it may or may not call
+            // flush, and may report its failure): such runs are compared on the port events and their pacing only
+            if g[2].contains(&"F") {
+                format!("{} [flush-fails]", r)
+            } else {
+                r
+            }
         }
         ["serialts", wms, rms, m, "|", rest @ ..] => {
             // timed exchange on a slow port: the first write call blocks wms ms, the first read call rms ms
